@@ -289,9 +289,12 @@ func (w *Worker) RunPath(entry *ssa.Function, prefix []int32, collectFuncs bool)
 			switch r := r.(type) {
 			case abort:
 				res.End, res.Msg = r.kind, r.msg
+				if r.kind == "unsupported" && p.errStack != "" {
+					res.Msg += "\n" + p.errStack
+				}
 			case *goPanic:
 				// a panic escaped the harness: built-in violation
-				res.End, res.Msg = "panic", r.msg
+				res.End, res.Msg = "panic", r.msg+" @"+r.at
 				lab := "panic"
 				if r.at != "" {
 					lab = "panic@" + r.at
